@@ -208,7 +208,7 @@ def skeleton_texts():
     schemes = ['http:', 'x:', 'mailto:', 'git+ssh:', 'HTTP:', '']
     auths = [None, '//', '//h', '//u@h', '//u:p@h:81', '//h:', '//h:80', '//[::1]', '//[::1]:81', '//1.2.3.4',
              '//xn--bcher-kva.de', '//u%40:p%3A@h', '//:p@h', '//@h', '//a%20b', '//H.Example']
-    paths = ['', '/', '/a', 'a', '/a/', 'a/b', '/./a/../b', '/a//b', '.', '..', './a:b']
+    paths = ['', '/', '/a', 'a', '/a/', 'a/b', '/./a/../b', '/a//b', '.', '..', './a:b', '//a', '///a/b', '//']
     for s, a, p, q, f in itertools.product(schemes, auths, paths, (None, '', 'k=v', 'a&b;c=&=d'), (None, '', 'f')):
         if a is not None and p and not p.startswith('/'):
             continue                                      # path-abempty under an authority
@@ -237,6 +237,14 @@ def fixed_point(text, full):
     o = observe(u1)
     pct = any('%' in str(x) for x in [o['username'], o['password'], o['fragment'], o['host']] + o['segs'] + [z for kv in o['query'] for z in kv])
     return t1 == t2, t1, t2, pct
+
+
+def _empty_auth_dslash(text):
+    try:
+        sc, au, pa = R.parse(text)[:3]
+    except Exception:  # noqa
+        return False
+    return au == '' and pa.startswith('//')
 
 
 def check_fixed(H, text, pos=None, tup=(), frame=None):
@@ -279,7 +287,8 @@ def check_fixed(H, text, pos=None, tup=(), frame=None):
         else:
             H.fail(clause if not blank_pair else 'full_quote_fixed_point', 'URL() -> to_text -> URL() -> to_text',
                    'query containing a pair with empty key and blank value ("=") next to other pairs' if blank_pair else
-                   'well-formed text, no single culprit token' if frame else 'URL structure (skeleton)',
+                   'well-formed text, no single culprit token' if frame else
+                   'empty authority followed by a path that starts with "//"' if _empty_auth_dslash(text) else 'URL structure (skeleton)',
                    text, detail, snip)
 
 
@@ -408,6 +417,19 @@ def run():
             if H.out_of_time(0.6):
                 H.note_truncated('round trip: strings of length %d stopped by time budget' % maxlen)
                 break
+    # empty path segments (leading, interior, trailing, several in a row) are segments like any other: recovered exactly
+    for segs in (['', 'a'], ['', '', 'a'], ['a', '', 'b'], ['a', '', ''], ['', ''], ['', 'a', ''], ['', '', '', 'a', 'b']):
+        c = dict(username='u', password='pw', segs=list(segs), query=[('k', 'v')], fragment='f')
+        for env in few:
+            H.ev(key=('empty-segs', env, tuple(segs)), nontrivial=True, sample=dict(env=env, segments=segs), part='roundtrip_empty_segments')
+            try:
+                probs, text = roundtrip(env, c)
+            except Exception as e:  # noqa
+                probs, text = [('component_recovered', 'raises %s: %s' % (type(e).__name__, e))], None
+            for clause, what in probs:
+                H.fail(clause, 'URL.to_text(full_quote=True) -> URL()', 'path with empty segments', dict(env=env, segments=segs), what,
+                       rt_snippet(env, c))
+
     for a, b in itertools.product(SYMS, repeat=2):        # every position filled with special text at once
         c = dict(username=a + b, password=b + a, segs=[a, b, a + b], query=[(a, b)] + ([(b, a)] if a != b else []) + [(a + b, b + a)],
                  fragment=b + a)
